@@ -1,4 +1,5 @@
 import SshuttleModel.Code.Tunnel
+import SshuttleModel.Code.Loop
 import SshuttleModel.Spec.Quiet
 import SshuttleModel.Spec.Measure
 open Sshuttle Sshuttle.Mux Sshuttle.Wrap Sshuttle.Tunnel
@@ -113,6 +114,27 @@ def step (w : World) (line : String) : World × List String :=
         | [] => w1
         else w1
       (w2, showWorld w2)
+  | ["round", e, k, ready, conn, recv, send, se] =>
+    -- one whole pass of the select loop: the model decides itself which callbacks are made.
+    -- ready = "auto" (the environment as it is) or "-" / "i,j,…" (exactly these flows' sockets are reported
+    -- readable and writable, the tunnel's write file is not; the others answer like a socket with nothing to read)
+    match parseEnd e, k.toNat?, parseConn conn, parseRecv recv, parseSend send with
+    | some e, some k, some c, some r, some s =>
+      let io : CbIo := { conn := c, recv := r, send := s, shutErr := se == "1" }
+      let quietIo : CbIo := { conn := .ok, recv := .eagain, send := .sent 65536, shutErr := false }
+      let rl : Option (List Nat) := if ready == "auto" then none else
+        some ((ready.splitOn ",").filterMap String.toNat?)
+      let sel : Sel := match rl with
+        | none => w.truthfulSel e
+        | some l => { sockR := fun i => l.contains i, sockW := fun i => l.contains i, muxW := false }
+      let ios : Nat → CbIo := match rl with
+        | none => fun _ => io
+        | some l => fun i => if l.contains i then io else quietIo
+      let w2 := w.run (roundHead e w.flows.length)
+      let n := (roundTail w2 e k sel ios).length - k
+      let w1 := w.round e k sel ios
+      (w1, (showWorld w1).map (· ++ s!" wants=none cbs={n}"))
+    | _, _, _, _, _ => (w, ["bad-op"])
   | ["#flush"] => (w, [])
   | ["quiet"] => (w, [if quietB w then "quiet=1" else "quiet=0"])
   | "q" :: ws =>
